@@ -464,8 +464,8 @@ def run(p: Program, rep: Report, tier: str) -> None:
             continue
         for pa_ in hp_:
             for e_ in pa_.events:
-                if e_.kind == "call" and e_.a == ("param", f_.params[0]) and e_.b and e_.b[0][0] == "dict":
-                    for k_, v_ in e_.b[0][1]:
+                if e_.kind == "call" and e_.a == ("param", f_.params[0]) and e_.b and (e_.b[0][0] == "dict" or (e_.b[0][0] == "mut" and e_.b[0][1][0] == "dict")):
+                    for k_, v_ in (e_.b[0][1] if e_.b[0][0] == "dict" else e_.b[0][1][1]):
                         if k_ == ("const", "type") and v_[0] == "const" and isinstance(v_[1], str) and v_[1].startswith("http.response."):
                             emitted.setdefault(v_[1], (f_, f_.node))
     cap = nested_fn(afa, "send", passed_as_argument(afa))
